@@ -51,7 +51,7 @@ STUBS = ['(c) the maildir layout and Maildir objects are stubs raising the docum
 OUTSIDE = ['maildir directories themselves', 'modified UTF-7 spelling of names (C18)']
 
 _g: dict = {}
-VOCAB = ['a', 'a/b', 'A', 'a\nb', 'x*', 'a/b/c', 'b', 'iNbOx']
+VOCAB = ['a', 'a/b', 'A', 'a\nb', 'x*', 'a/b/c', 'b', 'iNbOx', 'a/a']
 
 
 def setup() -> None:
@@ -126,6 +126,35 @@ def _h_wildcards(nnames, nlen, qlen):
         for s in names:
             got = any(e is s or bool(e == s) for e in listed)
             props.append(B(spec_match(s.items, query.items)) == B(got))
+        return Outcome(AND(*props), witness=wit)
+    return fn
+
+
+def _h_renames(slen, tlen):
+    """ListTree.get_renames(p, t) for a mailbox p with an inferior p/s: exactly (p -> t) and (p/s -> t/s)"""
+    def fn(eng):
+        from pysymex import fresh_str, B, AND, Outcome
+
+        def part(tag, n):
+            x = fresh_str(eng, tag, n, hi=0x7e)
+            for c in x.items:
+                eng.add((c.t >= 0x21) & (c.t != 47))
+            return x
+        p, s_, t = part('p', 1), part('s', slen), part('t', tlen)
+        if bool(p == t):
+            from pysymex import Infeasible
+            raise Infeasible()
+        wit = lambda m: {'p': p.concrete(m), 's': s_.concrete(m), 't': t.concrete(m)}  # noqa: E731
+        child = p + '/' + s_
+        tree = _g['ListTree']('/').update('INBOX', p, child)
+        pairs = tree.get_renames(p, t)
+        if len(pairs) != 2:
+            return Outcome(False, witness=wit, info='%d renames' % len(pairs))
+        want = [(p, t), (child, t + '/' + s_)]
+        props = []
+        for (a, b), (wa, wb) in zip(pairs, want):
+            props.append(B(a == wa))
+            props.append(B(b == wb) if len(b) == len(wb) else False)
         return Outcome(AND(*props), witness=wit)
     return fn
 
@@ -343,6 +372,9 @@ def harnesses(tier):
                        [(1, 1, 2), (1, 2, 2), (1, 2, 3), (2, 1, 2), (1, 3, 3), (2, 2, 3), (1, 2, 4)]):
         hs.append(Harness('list_wildcards[names=%d,len=%d,pattern=%d]' % (nn, nl, ql), _h_wildcards(nn, nl, ql),
                           {'names': nn, 'name_len': nl, 'pattern_len': ql}, replay='wildcards', task_budget=60))
+    for sl, tl in ([(1, 1), (2, 1), (3, 2)] if q else [(1, 1), (2, 1), (3, 2), (3, 3), (4, 2)]):
+        hs.append(Harness('rename_inferiors[s=%d,t=%d]' % (sl, tl), _h_renames(sl, tl),
+                          {'parent': '1 symbolic char', 'inferior_part': sl, 'target': tl}, replay='renames', task_budget=60))
     for d, ops, pl in ([(1, OPS, 2), (2, ['create', 'delete', 'rename', 'list'], 1)] if q else
                        [(1, OPS, 3), (2, OPS, 1), (3, ['create', 'delete', 'rename', 'list'], 1)]):
         hs.append(Harness('namespace_program[d=%d,ops=%d]' % (d, len(ops)), _h_program(d, ops, pl),
@@ -373,6 +405,14 @@ def replay(harness, w):
             exp = spec_match([ord(c) for c in s], [ord(c) for c in query])
             if exp != (s in listed):
                 bad.append('LIST "" %r: %r listed=%s, RFC says %s' % (query, s, s in listed, exp))
+    elif harness == 'renames':
+        cs = lambda x: ''.join(chr(c) for c in x)  # noqa: E731
+        p, s_, t = cs(w['p']), cs(w['s']), cs(w['t'])
+        child = p + '/' + s_
+        pairs = list(ListTree('/').update('INBOX', p, child).get_renames(p, t))
+        want = [(p, t), (child, t + '/' + s_)]
+        if pairs != want:
+            bad.append('get_renames(%r, %r) = %r, expected %r' % (p, t, pairs, want))
     elif harness == 'program':
         script = [(op, a, b, None if p is None else ''.join(chr(c) for c in p)) for op, a, b, p in w['script']]
 
